@@ -572,7 +572,7 @@ func runC15(c *Ctx) int {
 	}
 	nGen := c.Pick(48, 1600)
 	nDeep := c.Pick(24, 800)
-	progs := apiPrograms(c.Seed+1500, nGen, []string{"buckets", "mixed", "big", "buckets", "structural"}, func(i int, cfg *gen.Config) {
+	progs := apiPrograms(c.Seed+1500, nGen, []string{"buckets", "mixed", "big", "buckets", "structural", "bigkeys", "manybuckets"}, func(i int, cfg *gen.Config) {
 		cfg.Reopen = 0.1
 		cfg.ROProbe = 0
 		cfg.Rollback = 0.1
